@@ -460,6 +460,41 @@ def CE.toS? : CE → Option S
   | .union ls => (litsToS? ls).map (fun ss => .union (slistOf ss))
   | .any => some .any
 
+/-! ### the round-trip document of a const / enum schema (`convertLiteral` / `convertEnum` / `convertUnion` of to.go) -/
+
+/-- the `type` keyword `convertLiteral` derives from the FIRST value (`switch values[0].(type)`): string / number /
+    boolean; no `type` for anything else. -/
+def litTypeOK (first x : Json) : Bool :=
+  match first with
+  | .str _ => (match x with | .str _ => true | _ => false)
+  | .num _ => (match x with | .num _ => true | _ => false)
+  | .bool _ => (match x with | .bool _ => true | _ => false)
+  | _ => true
+
+/-- validity against the document `convertLiteral` emits for a one-value `Literal(v)`.  A value that is a slice is
+    FLATTENED into its items ("a single slice literal represents multiple literal values"): `[1]` becomes
+    `{const: 1, type: number}`, `[1,"a"]` becomes `{enum: [1,"a"], type: number}`, `[]` becomes `{}`. -/
+def rtLitValid (v x : Json) : Bool :=
+  let values := match v with | .arr xs => xs.toList | v => [v]
+  match values with
+  | [] => true
+  | a :: _ => litTypeOK a x && values.any (fun w => jsonEq x w)
+
+def LitZ.rtValid : LitZ → Json → Bool
+  | .nil, x => x.isNull                       -- {type: null}
+  | .lit v, x => rtLitValid v x
+
+/-- validity against `ToJSONSchema` of the const / enum schema: a Union is the `anyOf` of its members' documents. -/
+def CE.rtValid : CE → Json → Bool
+  | .one l, x => l.rtValid x
+  | .enum strs, x => (match x with | .str s => strs.contains s | _ => false)
+  | .union ls, x => ls.any (fun l => l.rtValid x)
+  | .any, _ => true
+
+def Json.isArr : Json → Bool
+  | .arr _ => true
+  | _ => false
+
 /-- objects of a JSON value have unique keys (a Go map has; `Json.obj` is an association list). -/
 def uniqList : List Str → Bool
   | [] => true
